@@ -351,21 +351,24 @@ def addDissem (env : Nat → Content) (sd : SlotData) (s : Shred) : SlotData × 
       (sd, r, evs)
     else (sd, r, evOf r)
 
-/-- `Blockstore::add_shred_from_repair` (with the fix: a block that reconstructs to a hash other
-    than the requested one is dropped and reported as `InvalidShred`). -/
+/-- files the result of `add_shred` in the repair spot of `h` (with the fix: a block that
+    reconstructs to a hash other than the requested one is dropped and reported as `InvalidShred`) -/
+def fileRepair (sd : SlotData) (h : H) (b : BlockData) (r : AddRes) : SlotData × AddRes :=
+  match r with
+  | .ev (.block info) =>
+    if info.hash ≠ h then ({ sd with rep := repDel sd.rep h }, AddRes.err .invalidShred)
+    else ({ sd with rep := repSet sd.rep h b }, r)
+  | _ => ({ sd with rep := repSet sd.rep h b }, r)
+
+/-- `Equivocation | InvalidShred` ⇒ `flag_leader_misbehavior`; otherwise the event (if any) is sent -/
+def flagIfBad (sd : SlotData) (r : AddRes) : SlotData × AddRes × List Event :=
+  if isBadErr r then ((flag sd).1, r, (flag sd).2) else (sd, r, evOf r)
+
+/-- `Blockstore::add_shred_from_repair` -/
 def addRepair (env : Nat → Content) (sd : SlotData) (h : H) (s : Shred) : SlotData × AddRes × List Event :=
-  let b0 := (repGet sd.rep h).getD (BlockData.new sd.dis.cap sd.dis.slot)
-  let (b, r) := addShred env b0 s
-  let (sd, r) :=
-    match r with
-    | .ev (.block info) =>
-      if info.hash ≠ h then ({ sd with rep := repDel sd.rep h }, AddRes.err .invalidShred)
-      else ({ sd with rep := repSet sd.rep h b }, r)
-    | _ => ({ sd with rep := repSet sd.rep h b }, r)
-  if isBadErr r then
-    let (sd, evs) := flag sd
-    (sd, r, evs)
-  else (sd, r, evOf r)
+  let br := addShred env ((repGet sd.rep h).getD (BlockData.new sd.dis.cap sd.dis.slot)) s
+  let p := fileRepair sd h br.1 br.2
+  flagIfBad p.1 p.2
 
 /-- `Blockstore::add_own_slice`: result `none` = panic -/
 def addOwn (sd : SlotData) (c : Commitment) (sz : Nat) (parent : Option (Nat × Nat)) (txs : Option (List Nat)) :
